@@ -6,7 +6,8 @@ open Lean KG KG.Model.Alloc
 
 def decodeIn (a : Json) : Except String In := do
   pure { total := ← J.getInt a "total", totalBurst := ← J.getInt a "totalBurst", allocated := ← J.getInt a "allocated",
-         upstreamLevel := ← J.getInt a "upstreamLevel", current := ← J.getInt a "current", used := ← J.getInt a "used",
+         upstreamLevel := ← J.getInt a "upstreamLevel", current := ← J.getInt a "current",
+         recorded := ← J.getInt a "recorded", used := ← J.getInt a "used",
          level := ← J.getInt a "level", clients := ← J.getInt a "clients", tokenBucket := ← J.getBool a "tokenBucket" }
 
 def encRes : Except Err (Int × Int) → Json
